@@ -47,6 +47,10 @@ def gen_case(rng, big):
         c.limit = [w for w in words if rng.chance(2, 3)]
     if r == 6:
         c.interp = False
+    if rng.chance(1, 14) and c.order >= 2:
+        # decreasing thresholds: ParsePruning must refuse them (otherwise substrings of kept n-grams are removed)
+        hi = rng.range(1, 3)
+        c.prune = [hi] * rng.range(1, c.order - 1) + [rng.range(0, hi - 1)]
     if rng.chance(1, 4):
         c.intermediate = True
     if rng.chance(1, 5):
@@ -109,7 +113,7 @@ def run(ctx):
     cases = corpus_cases()
     ctx.count("corpus_cases", len(cases))
     big = not ctx.quick
-    cases += [gen_case(rng, big) for _ in range(ctx.pick(170, 3000))]
+    cases += [gen_case(rng, big) for _ in range(ctx.pick(380, 1800))]
     # model answers in one batch
     lines = []
     for c in cases:
@@ -130,7 +134,7 @@ def run(ctx):
             corr = None
         kinds[info.get("kind", "?")] = kinds.get(info.get("kind", "?"), 0) + 1
         fail = None
-        if ofail and ofail[0] in ("spec:not-built", "spec:arpa-syntax", "spec:header-counts", "spec:ngram-set"):
+        if ofail and ofail[0] in ("spec:not-built", "spec:arpa-syntax", "spec:header-counts", "spec:ngram-set", "spec:prune-order-accepted"):
             fail = ofail      # C06 clauses: a model must be written, well formed, with the right counts and closed
         if info.get("accepted") and run_.arpa_path and not (ofail and ofail[0] == "spec:arpa-syntax"):
             header, orders = kn.parse_arpa(run_.arpa_path)
@@ -178,7 +182,8 @@ def run(ctx):
     ctx.coverage["case_kinds"] = kinds
     ctx.coverage["contexts_summed"] = contexts
     ctx.coverage["models_with_exhaustive_context_enumeration"] = exhaustive_models
-    ctx.coverage["exhaustive"] = "all contexts up to length N-1 over the whole vocabulary for models with <= 8 unigrams (%d models in this run)" % exhaustive_models
+    ctx.coverage["exhaustive_note"] = "all contexts up to length N-1 over the whole vocabulary for models with <= 8 unigrams (%d models in this run)" % exhaustive_models
+    ctx.coverage["traces_validated_against_impl"] = kinds.get("built", 0) - len(corr_fail)
     ctx.coverage["build_binary_loads"] = loads
     ctx.coverage["intermediate_outputs_compared"] = inter_checked
     ctx.coverage["spec_oracle_failures"] = len(spec_fail)
